@@ -422,9 +422,11 @@ class FactoryFunctorPool(FunctorPool):
             self.verbose = verbose
 
         def run(self) -> None:
-            while not self.stop_event.is_set():
+            while True:
                 replace_id = self.pool._replace_queue.get()
                 if replace_id is None:
+                    # the stop token of this thread (see stop), it must be consumed here, else the thread of the
+                    # next call would take it and leave too early
                     break
                 for i, p in enumerate(self.pool.procs):
                     if p.wid == replace_id:
